@@ -67,10 +67,11 @@ def parse_ctx(s):
 
 def make_tx(ctx, script_sig=b"", spk=b"", witness=()):
     lock, seq, ver, amount = ctx
-    credit = Tx(1, [Tx.TxIn(b"\0" * 32, 0xFFFFFFFF, b"\0\0", sequence=0xFFFFFFFF)], [Tx.TxOut(amount, spk)])
-    tx_in = Tx.TxIn(credit.hash(), 0, script_sig, sequence=seq)
+    # the outpoint is fixed, so that the sighash of a script code depends on `ctx` only (the generator signs before
+    # it knows the final scriptSig / scriptPubKey)
+    tx_in = Tx.TxIn(b"\x11" * 32, 0, script_sig, sequence=seq)
     tx_in.witness = list(witness)
-    return Tx(ver, [tx_in], [Tx.TxOut(amount, b"")], lock_time=lock, unspents=credit.tx_outs_as_spendable())
+    return Tx(ver, [tx_in], [Tx.TxOut(amount, b"")], lock_time=lock, unspents=[Tx.TxOut(amount, spk)])
 
 
 def code_key(code: bytes, wit: bool) -> bytes:
